@@ -10,6 +10,7 @@ mod refmath;
 mod svm;
 mod world1;
 mod world2;
+mod world2x;
 
 use engine::{Ctx, Tier};
 
